@@ -107,6 +107,19 @@ CONTEXTS = [("li t0, {}", 7, "imm"), ("addi t0, t1, {}", 13, "imm"), ("lui t0, {
             ("csrrsi t0, {}, 3", 11, "csr")]
 # a sign inside a literal, two signs: malformed in every notation (the radix parsers of the standard library
 # accept one leading '+', so these are only kept out by what the lexer lets through)
+# every instruction form that carries an immediate (seed C17-r wrapped the operand of the shifts only)
+for _mn in ("andi", "ori", "xori", "slti", "sltiu", "slli", "srli", "srai"):
+    _t = _mn + " t0, t1, {}"
+    CONTEXTS.append((_t, _t.index("{}"), "imm"))
+for _mn in ("lb", "lbu", "lh", "lhu"):
+    _t = _mn + " t0, {}(sp)"
+    CONTEXTS.append((_t, _t.index("{}"), "off"))
+for _mn in ("sb", "sh"):
+    _t = _mn + " t0, {}(t1)"
+    CONTEXTS.append((_t, _t.index("{}"), "off"))
+for _t, _f in (("jalr t0, t1, {}", "imm"), (".half {}", "data"), ("csrrsi t0, 0x300, {}", "imm"),
+               ("csrrci t0, 0x300, {}", "imm")):
+    CONTEXTS.append((_t, _t.index("{}"), _f))
 PLUS_MALFORMED = ["-+5", "0x+10", "-0b+11", "+-5", "0X+1f", "0b+1", "-0x+7f", "++1"]
 SYMCH = set("abcdefghijklmnopqrstuvwxyzABCDEFGHIJKLMNOPQRSTUVWXYZ0123456789_-")
 
